@@ -576,6 +576,7 @@ def run(tier):
             L, kinds = c06.lin_rule(tprog, rep, up, rec, rel)
             c06.n2_n3(tprog, rep, up, L)
             c06.n5(tprog, rep, up, L)
+            c06.n6_relational(tprog, rep, up, L)
     n = len(configs)
     rep.require_min("N5", 10 * n)
     rep.require_min("N2", 4 * n)
